@@ -346,16 +346,70 @@ def _name_tree(rng, shape, pool, binary):
     return go(shape, rng.choice(pool))
 
 
+def _compositions(s):
+    """all ways of cutting the string s into non-empty consecutive pieces"""
+    if not s:
+        return [[]]
+    out = []
+    for k in range(1, len(s) + 1):
+        for rest in _compositions(s[k:]):
+            out.append([s[:k]] + rest)
+    return out
+
+
+CONCAT_WORDS = ["abc", "abcb", "aab", "abab", "abcbc", "1121", "a1a", "bcc", "xab", "a0a0"]
+
+
+def _concat_tree(rng):
+    """Repeated leaf/inner names below affix-related ancestor names: several branches whose ancestor
+    names are different cuts of one word (r/ab/c/x, r/a/bc/x, r/abc/x, ...), so that the ancestor names
+    concatenate identically although the paths differ; depth 3-5; siblings stay distinct (trie)."""
+    word = rng.choice(CONCAT_WORDS)
+    comps = [c for c in _compositions(word) if len(c) <= 3]
+    rng.shuffle(comps)
+    chains = comps[: rng.randint(2, min(4, len(comps)))]
+    tails = rng.choice([[["x"]], [["x"], ["y"]], [["x", "x"]], [["x", "y"], ["y"]], [["a"]], [[word[-1]]],
+                        [["x"], ["x", "x"]]])
+    root = [rng.choice(["r", "a", word[0], "x"]), []]
+
+    def insert(node, names):
+        for nm in names:
+            for k in node[1]:
+                if k[0] == nm:
+                    node = k
+                    break
+            else:
+                k = [nm, []]
+                node[1].append(k)
+                node = k
+        return node
+    for ch in chains:
+        end = insert(root, ch)
+        for tl in tails:
+            if rng.random() < 0.85:
+                insert(end, tl)
+    if rng.random() < 0.4:
+        insert(root, [rng.choice(["d", "x", "y"])] + rng.choice(tails))
+    for k in root[1]:
+        rng.random() < 0.3 and rng.shuffle(k[1])
+    rng.shuffle(root[1])
+    return root
+
+
 def gen_case(rng, kind=None):
-    kind = kind or rng.choices(["v", "h", "dot", "mermaid"], weights=[38, 38, 12, 12])[0]
+    kind = kind or rng.choices(["v", "h", "dot", "mermaid"], weights=[36, 36, 16, 12])[0]
     binary = rng.random() < 0.2
     sk = "binary" if binary else rng.choice(["wide", "wide", "deep", "mixed", "mixed", "path", "star"])
     pool_name = rng.choice(list(NAME_POOLS))
     pool = list(NAME_POOLS[pool_name])
     if kind == "dot":
         pool = [x for x in pool if ":" not in x]
-    shape = _bin_shape(rng) if binary else _shape(rng, sk)
-    tree = _name_tree(rng, shape, pool, binary)
+    if kind in ("dot", "mermaid") and rng.random() < 0.45:
+        binary, sk, pool_name = False, "concat", "affix-cuts"
+        tree = _concat_tree(rng)
+    else:
+        shape = _bin_shape(rng) if binary else _shape(rng, sk)
+        tree = _name_tree(rng, shape, pool, binary)
     if kind == "mermaid" and tsize(tree) < 2:
         tree = [tree[0], [[("b" if tree[0] != "b" else "c"), []]] + ([None] if binary else [])]
     names = {x[0] for _, x in tnodes(tree)}
@@ -460,6 +514,9 @@ TWO_SINGLE = ["r", [["aaa", [["p", []], ["q", []]]], ["b", [["c", [["d", []]]], 
 BANDS = ["r", [["aaaaaa", [["b", [["cccc", []]]]]], ["d", [["eeeeeeee", []], ["f", [["g", []]]]]]]]
 DEEP4 = ["r", [["a", [["b", [["c", [["d", []], ["e", []]]], ["f", []]]], ["g", []]]], ["h", [["i", [["j", []]]]]]]]
 BIN = ["a", [None, ["b", [["c", []], None]]]]
+# repeated names below ancestors whose names concatenate identically (ab+c / a+bc / abc)
+CONCAT = ["r", [["ab", [["c", [["x", []]]]]], ["a", [["bc", [["x", []], ["y", []]]], ["b", [["c", [["x", []]]]]]]],
+                ["abc", [["x", [["x", []]]]]], ["d", [["x", []]]]]]
 
 
 # K4: tree_to_mermaid on a one-node tree: no flow line, no vertex
@@ -483,6 +540,9 @@ def corpus(prop):
         out.append((nm, _mk("mermaid", t)))
     for kind in ("v", "h", "dot", "mermaid"):
         out.append(("binary", _mk(kind, BIN, binary=True)))
+    for sep in ("/", "-", "."):
+        out.append(("concat-ancestors", _mk("dot", CONCAT, sep=sep)))
+    out.append(("concat-ancestors", _mk("mermaid", CONCAT)))
     out.append(("single", _mk("v", ["a", []])))
     out.append(("single", _mk("h", ["a", []])))
     out.append(("single", _mk("dot", ["a", []])))
@@ -611,7 +671,8 @@ def rule(prop):
     return ("one call of yield_tree+print_tree / hyield_tree / tree_to_dot / tree_to_mermaid per case on a random "
             "tree (<= 12 nodes; shapes wide/deep/mixed/path/star/binary with empty slots; name pools distinct, "
             "repeated across branches, affix-related, varied lengths, special characters incl. box-drawing glyphs, "
-            "labels ending in digits), all 6 built-in styles as name and as style object, custom icon lists/tuples/"
+            "labels ending in digits; for dot/mermaid additionally 45% trees whose branches carry repeated leaf/inner "
+            "names below ancestor names that are different cuts of one word (ab/c, a/bc, abc, depth 3-5)), all 6 built-in styles as name and as style object, custom icon lists/tuples/"
             "BasePrintStyle objects, malformed icon lists, start at an inner node (object or unambiguous path), "
             "max_depth, intermediate_node_name on/off; thorough tier adds every ordered tree with <= 6 nodes; "
             "non-trivial = the drawn tree has >= 3 nodes and the call returned; distinct by canonical JSON hash. "
